@@ -103,7 +103,7 @@ package apd
 //@   layer bigint
 //@   requires rep(z) && writable(tmp)
 //@   assigns *tmp
-//@   ensures ret != nil && val(ret) == val(z) && (heapform(z) ==> ret == z._inner) && (!heapform(z) ==> ret == tmp)
+//@   ensures ret != nil && val(ret) == val(z) && (heapform(z) ==> ret == z._inner && backing(ret) == 0) && (!heapform(z) ==> ret == tmp && backing(ret) == z)
 
 //@ func (*BigInt).updateInner
 //@   trusted unsafe bridge: adopts src's words or switches to a fresh heap big.Int; exercised by the bounded differential check
@@ -1619,3 +1619,227 @@ package apd
 //@ lemma {C20} rnd_value_bracket(m: rounder, neg: bool, C: int, sh: int): C >= 0 && sh >= 0 ==> RQ(C, sh) * pow10(sh) <= C && C < (RQ(C, sh) + 1) * pow10(sh)
 //@ lemma {C20} add_commutes(c: *Context, x: *Decimal, y: *Decimal): addS(x, y, y.Negative) == addS(y, x, x.Negative) && addNeg(c, x, y.Negative, addS(x, y, y.Negative)) == addNeg(c, y, x.Negative, addS(y, x, x.Negative)) && min(x.Exponent, y.Exponent) == min(y.Exponent, x.Exponent)
 //@ lemma {C20} rndq_bracket(m: rounder, neg: bool, N: int, D: int): N >= 0 && D > 0 ==> div(N, D) <= RNDQ(m, neg, N, D) && RNDQ(m, neg, N, D) <= div(N, D) + 1 && (mod(N, D) == 0 ==> RNDQ(m, neg, N, D) == div(N, D))
+
+// ---------------------------------------------------------------- remaining math/big wrappers (C16): each performs exactly the
+// math/big operation of the same name on the same values; the arithmetic meaning of the operation is an uninterpreted function.
+//@ func math/big.(*Int).And
+//@   trusted math/big: result is a function of the operand values only; only the receiver is written
+//@   assigns *z
+//@   ensures val(z) == uf_and(old(val(x)), old(val(y))) && ret == z
+//@ func (*BigInt).And
+//@   layer bigint
+//@   props C16 C05 C06
+//@   requires writable(z) && rep(x) && rep(y) && rep(z) && sep(z, x) && sep(z, y)
+//@   assigns z
+//@   allocates
+//@   ensures val(z) == uf_and(old(val(x)), old(val(y))) && ret == z && rep(z)
+//@ func math/big.(*Int).AndNot
+//@   trusted math/big: result is a function of the operand values only; only the receiver is written
+//@   assigns *z
+//@   ensures val(z) == uf_andnot(old(val(x)), old(val(y))) && ret == z
+//@ func (*BigInt).AndNot
+//@   layer bigint
+//@   props C16 C05 C06
+//@   requires writable(z) && rep(x) && rep(y) && rep(z) && sep(z, x) && sep(z, y)
+//@   assigns z
+//@   allocates
+//@   ensures val(z) == uf_andnot(old(val(x)), old(val(y))) && ret == z && rep(z)
+//@ func math/big.(*Int).Or
+//@   trusted math/big: result is a function of the operand values only; only the receiver is written
+//@   assigns *z
+//@   ensures val(z) == uf_or(old(val(x)), old(val(y))) && ret == z
+//@ func (*BigInt).Or
+//@   layer bigint
+//@   props C16 C05 C06
+//@   requires writable(z) && rep(x) && rep(y) && rep(z) && sep(z, x) && sep(z, y)
+//@   assigns z
+//@   allocates
+//@   ensures val(z) == uf_or(old(val(x)), old(val(y))) && ret == z && rep(z)
+//@ func math/big.(*Int).Xor
+//@   trusted math/big: result is a function of the operand values only; only the receiver is written
+//@   assigns *z
+//@   ensures val(z) == uf_xor(old(val(x)), old(val(y))) && ret == z
+//@ func (*BigInt).Xor
+//@   layer bigint
+//@   props C16 C05 C06
+//@   requires writable(z) && rep(x) && rep(y) && rep(z) && sep(z, x) && sep(z, y)
+//@   assigns z
+//@   allocates
+//@   ensures val(z) == uf_xor(old(val(x)), old(val(y))) && ret == z && rep(z)
+//@ func math/big.(*Int).Not
+//@   trusted math/big: result is a function of the operand value only
+//@   assigns *z
+//@   ensures val(z) == uf_not(old(val(x))) && ret == z
+//@ func (*BigInt).Not
+//@   layer bigint
+//@   props C16 C05 C06
+//@   requires writable(z) && rep(x) && rep(z) && sep(z, x)
+//@   assigns z
+//@   allocates
+//@   ensures val(z) == uf_not(old(val(x))) && ret == z && rep(z)
+//@ func math/big.(*Int).Lsh
+//@   trusted math/big: result is a function of the operand value and the shift count
+//@   assigns *z
+//@   ensures val(z) == uf_lsh(old(val(x)), n) && ret == z
+//@ func (*BigInt).Lsh
+//@   layer bigint
+//@   props C16 C05 C06
+//@   requires n <= 1000000 && writable(z) && rep(x) && rep(z) && sep(z, x)
+//@   assigns z
+//@   allocates
+//@   ensures val(z) == uf_lsh(old(val(x)), n) && ret == z && rep(z)
+//@ func math/big.(*Int).Sqrt
+//@   trusted math/big (panics for a negative operand)
+//@   requires val(x) >= 0
+//@   assigns *z
+//@   ensures val(z) == uf_sqrt(old(val(x))) && ret == z
+//@ func (*BigInt).Sqrt
+//@   layer bigint
+//@   props C16 C05 C06
+//@   requires val(x) >= 0 && writable(z) && rep(x) && rep(z) && sep(z, x)
+//@   assigns z
+//@   allocates
+//@   ensures val(z) == uf_sqrt(old(val(x))) && ret == z && rep(z)
+//@ func math/big.(*Int).MulRange
+//@   trusted math/big
+//@   assigns *z
+//@   ensures val(z) == uf_mulrange(a, b) && ret == z
+//@ func (*BigInt).MulRange
+//@   layer bigint
+//@   props C16
+//@   requires writable(z) && rep(z)
+//@   assigns z
+//@   allocates
+//@   ensures val(z) == uf_mulrange(x, y) && ret == z && rep(z)
+//@ func math/big.(*Int).Binomial
+//@   trusted math/big
+//@   assigns *z
+//@   ensures val(z) == uf_binomial(n, k) && ret == z
+//@ func (*BigInt).Binomial
+//@   layer bigint
+//@   props C16
+//@   requires writable(z) && rep(z)
+//@   assigns z
+//@   allocates
+//@   ensures val(z) == uf_binomial(n, k) && ret == z && rep(z)
+//@ func math/big.(*Int).SetBit
+//@   trusted math/big (panics for a negative index or a bit value other than 0 and 1)
+//@   requires i >= 0 && (b == 0 || b == 1)
+//@   assigns *z
+//@   ensures val(z) == uf_setbit(old(val(x)), i, b) && ret == z
+//@ func (*BigInt).SetBit
+//@   layer bigint
+//@   props C16 C05 C06
+//@   requires i >= 0 && i <= 1000000 && (b == 0 || b == 1) && writable(z) && rep(x) && rep(z) && sep(z, x)
+//@   assigns z
+//@   allocates
+//@   ensures val(z) == uf_setbit(old(val(x)), i, b) && ret == z && rep(z)
+//@ func math/big.(*Int).TrailingZeroBits
+//@   trusted math/big
+//@   pure
+//@   ensures ret == uf_tzb(val(x))
+//@ func (*BigInt).TrailingZeroBits
+//@   layer bigint
+//@   props C16
+//@   requires rep(z)
+//@   pure
+//@   ensures ret == uf_tzb(val(z))
+//@ func math/big.(*Int).Div
+//@   trusted math/big (Euclidean division; panics for y == 0)
+//@   requires val(y) != 0
+//@   assigns *z
+//@   ensures val(z) == div(old(val(x)), old(val(y))) && ret == z
+//@ func (*BigInt).Div
+//@   layer bigint
+//@   props C16 C05 C06
+//@   requires val(y) != 0 && writable(z) && rep(x) && rep(y) && rep(z) && sep(z, x) && sep(z, y)
+//@   assigns z
+//@   allocates
+//@   ensures val(z) == div(old(val(x)), old(val(y))) && ret == z && rep(z)
+//@ func (*BigInt).innerOrAlias
+//@   layer bigint
+//@   props C16 C05
+//@   requires rep(z) && writable(tmp) && (a == z ==> ai != nil && val(ai) == val(z))
+//@   assigns *tmp
+//@   ensures ret != nil && val(ret) == val(z) && (a == z ==> ret == ai) && (a != z && heapform(z) ==> ret == z._inner && backing(ret) == 0) && (a != z && !heapform(z) ==> ret == tmp && backing(ret) == z)
+//@ func math/big.(*Int).Mod
+//@   trusted math/big (Euclidean modulus; panics for y == 0; y may be the receiver itself, but not a different header over the receiver's words)
+//@   requires val(y) != 0 && (y == z || backing(y) == 0 || backing(y) != backing(z))
+//@   assigns *z
+//@   ensures val(z) == mod(old(val(x)), old(val(y))) && ret == z
+//@ func (*BigInt).Mod
+//@   layer bigint
+//@   props C16 C05 C06
+//@   requires val(y) != 0 && writable(z) && rep(x) && rep(y) && rep(z) && sep(z, x) && sep(z, y)
+//@   assigns z
+//@   allocates
+//@   ensures val(z) == mod(old(val(x)), old(val(y))) && ret == z && rep(z)
+//@ func math/big.(*Int).DivMod
+//@   trusted math/big (Euclidean division; y may be the receiver itself, but not a different header over the receiver's words)
+//@   requires val(y) != 0 && z != m && (y == z || backing(y) == 0 || backing(y) != backing(z))
+//@   assigns *z, *m
+//@   ensures val(z) == div(old(val(x)), old(val(y))) && val(m) == mod(old(val(x)), old(val(y))) && ret0 == z && ret1 == m
+//@ func (*BigInt).DivMod
+//@   layer bigint
+//@   props C16 C05 C06
+//@   requires val(y) != 0 && z != m && y != m && x != m && writable(z) && writable(m) && rep(x) && rep(y) && rep(z) && rep(m) && sep(z, x) && sep(z, y) && sep(m, x) && sep(m, y) && sep(z, m)
+//@   assigns z, m
+//@   allocates
+//@   ensures val(z) == div(old(val(x)), old(val(y))) && val(m) == mod(old(val(x)), old(val(y))) && ret0 == z && ret1 == m && rep(z) && rep(m)
+//@ func (*BigInt).innerOrNil
+//@   layer bigint
+//@   props C16 C04
+//@   nilable z
+//@   requires (z != nil ==> rep(z)) && writable(tmp)
+//@   assigns *tmp
+//@   ensures (z == nil ==> ret == nil) && (z != nil ==> ret != nil && val(ret) == val(z) && (heapform(z) ==> ret == z._inner && backing(ret) == 0) && (!heapform(z) ==> ret == tmp && backing(ret) == z))
+//@ func (*BigInt).innerOrNilOrAlias
+//@   layer bigint
+//@   props C16 C04 C05
+//@   nilable z
+//@   requires (z != nil ==> rep(z)) && writable(tmp) && (z != nil && a == z ==> ai != nil && val(ai) == val(z))
+//@   assigns *tmp
+//@   ensures (z == nil ==> ret == nil) && (z != nil ==> ret != nil && val(ret) == val(z)) && (z != nil && a == z ==> ret == ai) && (z != nil && a != z && heapform(z) ==> ret == z._inner && backing(ret) == 0) && (z != nil && a != z && !heapform(z) ==> ret == tmp && backing(ret) == z)
+//@ func (*BigInt).MathBigInt
+//@   layer bigint
+//@   props C16 C06
+//@   requires rep(z)
+//@   pure
+//@   allocates
+//@   ensures ret != nil && isfresh(ret) && val(ret) == val(z)
+//@ func (*BigInt).SetMathBigInt
+//@   layer bigint
+//@   props C16 C06
+//@   requires writable(z) && rep(z) && x != nil && (isglobal(x) || allocated(x))
+//@   assigns z
+//@   allocates
+//@   ensures val(z) == old(val(x)) && ret == z && rep(z)
+//@ func math/big.(*Int).ModInverse
+//@   trusted math/big (nil and z unchanged when g and n are not relatively prime; n == 0 divides by zero)
+//@   requires val(n) != 0
+//@   assigns *z
+//@   ensures (ret == nil || ret == z) && (ret == nil ==> val(z) == old(val(z))) && (ret == z ==> val(z) == uf_modinv(old(val(g)), old(val(n))))
+//@ func (*BigInt).ModInverse
+//@   layer bigint
+//@   props C16 C05 C06
+//@   requires val(n) != 0 && writable(z) && rep(g) && rep(n) && rep(z) && sep(z, g) && sep(z, n)
+//@   assigns z
+//@   allocates
+//@   ensures (ret == nil || ret == z) && (ret == nil ==> val(z) == old(val(z))) && (ret == z ==> val(z) == uf_modinv(old(val(g)), old(val(n)))) && rep(z)
+//@ define l1 nb(p: *big.Int, q: *big.Int): bool = p == q || backing(p) == 0 || backing(p) != backing(q)
+//@ func math/big.(*Int).GCD
+//@   trusted math/big (z = gcd(a, b) >= 0 for operands of any sign; Bezout coefficients when x, y are given; an output may be an input itself but not a different header over an input's words)
+//@   nilable x, y
+//@   requires z != x && z != y && (x == nil || x != y) && nb(z, a) && nb(z, b) && (x != nil ==> nb(x, a) && nb(x, b) && nb(x, z)) && (y != nil ==> nb(y, a) && nb(y, b) && nb(y, z) && (x != nil ==> nb(y, x)))
+//@   assigns *z, *x, *y
+//@   ensures val(z) == uf_gcd(old(val(a)), old(val(b))) && ret == z && (x != nil ==> val(x) == uf_bezx(old(val(a)), old(val(b)))) && (y != nil ==> val(y) == uf_bezy(old(val(a)), old(val(b))))
+//@ func (*BigInt).GCD
+//@   layer bigint
+//@   props C16 C05 C06
+//@   nilable x, y
+//@   requires writable(z) && rep(z) && rep(a) && rep(b) && (x != nil ==> writable(x) && rep(x)) && (y != nil ==> writable(y) && rep(y))
+//@   requires z != a && z != b && z != x && z != y && (x != nil ==> x != y && x != a && x != b) && (y != nil ==> y != a)
+//@   requires sep(z, a) && sep(z, b) && (x != nil ==> sep(x, a) && sep(x, b) && sep(x, z)) && (y != nil ==> sep(y, a) && sep(y, b) && sep(y, z) && (x != nil ==> sep(y, x)))
+//@   assigns z, x, y
+//@   allocates
+//@   ensures val(z) == uf_gcd(old(val(a)), old(val(b))) && ret == z && rep(z) && (x != nil ==> rep(x) && val(x) == uf_bezx(old(val(a)), old(val(b)))) && (y != nil ==> rep(y) && val(y) == uf_bezy(old(val(a)), old(val(b))))
